@@ -127,6 +127,22 @@ def force_split(S, r, tier):
     return S
 
 
+def keep_cont(S, r, tier):
+    """C20 continuous sub-profile: gen_spec turns continuous tapes into decimal ones when exact is on; undo that"""
+    if S.pop("_cont", False) and S.get("exact"):
+        from .gen import mk_tape
+        S["mode"] = "cont"
+        S["exact"] = r.choice([20, 26, 30])
+        for key in ("arr", "srv", "ren"):
+            if S.get(key):
+                for c in S[key]:
+                    S[key][c] = [None if t is None else mk_tape(r, "cont", zero=False) for t in S[key][c]]
+        for s_ in S["servers"]:
+            if s_["k"] == "sched":
+                s_["cs"] = [max(1, c) for c in s_["cs"]]
+    return S
+
+
 PROFILES = {}
 LEVEL_TEXT = {
     "*": "seeded exploration: the real engine is run on tens of thousands of generated networks, tapes and tie-break "
@@ -158,6 +174,7 @@ def _load():
     from .oracles.c19 import C19, run_c19
     from .oracles.c16 import C16, run_c16
     from . import c15
+    from .oracles.c20 import C20, run_c20
 
     wide = profile()
     faulty = profile(f_zero=0.8, f_infarr=0.3, f_batch0=0.8, qcap=0.7, sched=0.35, renege=0.4, batch=0.4)
@@ -250,6 +267,15 @@ def _load():
                      "Network with deterministic distributions), a fresh interpreter under another PYTHONHASHSEED on ~2% of plans; distinct = distinct "
                      "digest of the run under test; non-trivial = non-empty prelude/between and >=10 records compared",
                      B(8000, 80000), runner=c15.run_c15, gen=c15.gen_c15, features=c15.features15, minimiser=c15.minimise15, wall=60))
+    ex = profile(ordinary_only=True, exact=1.0, time={"lat": 0.35, "dec": 0.65}, n=[1, 1, 2], k=[1, 2], inf=0.05, zero=0.0, preempt=0.0,
+                 sched=0.35, sched_pre_opts=[False], renege=0.35, prio=0.4, qcap=0.3, tdep=0.0, batch=0.2, horizon=[8.0, 20.0], ccm=0.1, cct=0.0,
+                 plan={"time": 1.0})
+    exc = dict(ex, time={"cont": 1.0}, f_zero=0.0, policies=["uniform"], _cont=True)
+    register(Profile("C20", [C20], [(3, ex), (1, exc)],
+                     "exact=k runs (k in 10..30) on decimal-lattice tapes: every record field a Decimal, dates = exact rational sums of samples / "
+                     "timetable dates; distinct history digest; non-trivial = >=1 pair of mathematically coincident events and >=10 records checked; "
+                     "continuous sub-profile: exact run vs floating-point twin within 10^-(k-3)",
+                     B(20000, 200000), post=keep_cont, runner=run_c20))
     cap = profile(qcap=0.9, qcap_vals=[INF, 0, 0, 1, 2, 3], syscap=0.4, batch=0.5, baulk=0.4, renege=0.3, jockey=0.5, n=[1, 2, 2, 3], **NOREROUTE)
     register(Profile("C06", [C06], [(1, cap)],
                      "distinct history digest; non-trivial = >=1 rejection and >=1 admission into a node holding capacity-1",
